@@ -787,6 +787,59 @@ def rule_stop(ctx):
               "; ".join(bad[:2]) + ": a consumed event keeps propagating past the group (or a member is skipped)", "8 answer vectors: consumed iff a consulted member consumed it")
 
 
+def rule_fresh_assembly(ctx):
+    """two assemblies through the default helpers share no layer object: getDefaultLayers() builds parallel-group
+    INSTANCES (with their member instances inside), so what it returns must be built anew on every call - executed twice
+    with the same arguments (and through getDefaultStack twice), no object of the first result may be in the second"""
+    from ..absint import Interp, _Raise, NeedAtom, Budget, DomainGrew
+    repo = ctx.repo
+    sb = repo.cls(YS, "YowStackBuilder")
+    hooks = {"ext:*.isclass": lambda itp, recv, a, k, env, d, e: ("c", bool(a) and a[0][0] == "cls"), "ext:*.randint": lambda itp, recv, a, k, env, d, e: ("c", 0)}
+
+    def objects(v, seen, out):
+        v = it.force(v)
+        if id(v) in seen:
+            return
+        seen.add(id(v))
+        if v[0] == "obj":
+            if id(v[1]) in out:
+                return
+            out[id(v[1])] = v[1]
+            for f in list(v[1].fields.values()):
+                if isinstance(f, tuple):
+                    objects(f, seen, out)
+        elif v[0] == "list":
+            for x in v[1]:
+                objects(x, seen, out)
+        elif v[0] == "dict":
+            for x in v[1].values():
+                if isinstance(x, tuple):
+                    objects(x, seen, out)
+    for helper in ("getDefaultLayers", "getDefaultStack"):
+        fn = repo.method(YS, "YowStackBuilder", helper, required=False)
+        if fn is None:
+            continue
+        w = where(YS, "YowStackBuilder." + helper, fn.lineno)
+        it = Interp(repo, {}, {}, hooks=hooks)
+        it.max_steps = max(getattr(it, "max_steps", 0), 3000000)
+        try:
+            r1 = it.apply(("clsmethod", sb, helper), [], {}, {"@module": sb.module}, 0, None)
+            r2 = it.apply(("clsmethod", sb, helper), [], {}, {"@module": sb.module}, 0, None)
+        except (_Raise, NeedAtom, Budget, DomainGrew) as x:
+            ctx.undecided("C18.state", w, "%s() twice" % helper, "could not be executed: %s" % (getattr(x, "text", x),))
+            continue
+        o1, o2 = {}, {}
+        objects(r1, set(), o1)
+        objects(r2, set(), o2)
+        layer_base = repo.cls(LAYERS, "YowLayer")
+        shared = [o for i, o in o1.items() if i in o2 and o.cls is not None and (layer_base in repo.mro(o.cls) or o.cls.name == "YowStack")]
+        n1 = len([o for o in o1.values() if o.cls is not None and layer_base in repo.mro(o.cls)])
+        ctx.check("C18.state", not shared and n1 > 0, w, "%s() twice: no layer object in both results" % helper,
+                  "the second assembly is handed the very same %s object(s) as the first (%d shared): wiring the second stack re-targets them, and the first stack's upper part then sends, broadcasts and reads properties through the other stack" % (
+                      sorted({o.cls.name for o in shared})[:3], len(shared)) if shared else "no layer instance found in the result",
+                  "%d layer instance(s) per call, none shared" % n1)
+
+
 def rule_par(ctx):
     """the group's constructor and setStack by abstract execution on three stub member classes: members instantiated in
     the given order, each member's four ways out (toLower, toUpper, broadcastEvent, emitEvent) bound to the group's own
@@ -880,6 +933,7 @@ def run(ctx):
     ctx.guarded("C18.stop", rule_stop, ctx)
     ctx.guarded("C18.par", rule_par, ctx)
     ctx.guarded("C18.state", rule_state, ctx)
+    ctx.guarded("C18.state", rule_fresh_assembly, ctx)
     ctx.guarded("C18.prim", rule_prim, ctx, "C18.prim")
     ctx.guarded("C18.stop", rule_callbacks, ctx, "C18.stop")
     # data handed to toLower reaches the layer below: nothing else may hold the (non re-entrant) layer lock (C12.order), adopted
